@@ -64,7 +64,7 @@ RULE = ('cases: row count k x dump batch size n x load batch size m x row_group_
         'are in schema order; exhaustive key order x fixed schema x (k,n) in {(1,1),(2,1),(5,2)}; 2-3 columns of ONE type x every column type x every non-schema key order. '
         'SCALE family (field scale, same runner and oracle, every choice from a PRNG derived from the case PRNG): '
         'big-batch = dump batch_size in {32768, 32769, 65535, 65536, 98304, 100000} (thorough: every one of them x row '
-        'count in {n-1, n, n+1, 2n, 2n+-1, one of 65536/65537/98304/131072}, 3n rows, and batch sizes 131072..262144; '
+        'count in {n-1, n, n+1, one of 2n-1/2n/2n+1, one of 65536/65537/98304/131072}, 3n rows, and a batch size of 131072..262144; '
         'quick: 4 cases, one of them always full batches of 65536 rows only) x load batch size in {1024 .. 131072 incl. '
         '65535/65536/65537/100000} x row_group_size none/1000/32768/65536/100000; many-load-batches = 20000..40000 '
         '(thorough ..100000) rows read back with load batch size 1..7 (2800..100000 load batches); many-dump-batches '
@@ -491,8 +491,8 @@ def around(rng, n, js=(1, 1, 2)):
     return rng.choice([j * n - 1, j * n, j * n, j * n + 1, rng.choice(BIG_KS)])
 
 
-def scale_big_batch(rng, n, k=None):
-    return mk_scale(rng, 'big-batch', around(rng, n) if k is None else k, n, rng.choice(BIG_MS))
+def scale_big_batch(rng, n, k=None, ms=BIG_MS):
+    return mk_scale(rng, 'big-batch', around(rng, n) if k is None else k, n, rng.choice(ms))
 
 
 def scale_many_load_batches(rng, ks, ms=(1, 1, 2, 3, 5, 7)):
@@ -525,7 +525,7 @@ def gen_scale(rng, tier):
     """the scale family (every choice from rng)"""
     if tier == 'quick':
         out = [scale_big_batch(rng, 65536, rng.choice([65536, 65536, 131072])),      # every row of the file in full batches of 2^16
-               scale_big_batch(rng, rng.choice([32768, 32769])),
+               scale_big_batch(rng, rng.choice([32768, 32769]), ms=[65535, 65536, 65537, 100000]),      # load batches above 65535 rows
                scale_big_batch(rng, rng.choice([98304, 100000]), rng.choice([98303, 98304, 98305, 100000, 100001, 131072])),
                scale_big_batch(rng, 65535, rng.choice([65535, 65536, 65537])),
                scale_many_load_batches(rng, [20000], (1,)), scale_many_load_batches(rng, [30000, 32768, 40000], (2, 3, 5, 7)),
@@ -534,13 +534,13 @@ def gen_scale(rng, tier):
         return out
     out = []
     for n in BIG_NS:                                # every listed batch size x multiple / one less / one more / listed counts
-        for k in sorted({n - 1, n, n + 1, 2 * n, rng.choice([2 * n - 1, 2 * n + 1]), rng.choice(BIG_KS)}):
+        for k in sorted({n - 1, n, n + 1, 2 * n + rng.choice([-1, 0, 0, 1]), rng.choice(BIG_KS)}):
             out.append(scale_big_batch(rng, n, k))
-    out += [scale_big_batch(rng, n, 3 * n + d) for n, d in ((32768, 0), (65536, 0), (65536, 1), (98304, 0), (100000, -1))]
-    out += [scale_big_batch(rng, rng.choice([131072, 196608, 262144]), rng.choice([262144, 262145, 196608, 393216])) for _ in range(3)]
-    out += [scale_many_load_batches(rng, [20000, 40000, 65536, 100000]) for _ in range(8)]
-    out += [scale_many_dump_batches(rng, [40000, 65536, 100000]) for _ in range(3)]
-    out += [scale_wide(rng, 400) for _ in range(12)]
+    out += [scale_big_batch(rng, n, 3 * n + d) for n, d in ((32768, 0), (65536, rng.choice([-1, 0, 0, 1])))]
+    out += [scale_big_batch(rng, rng.choice([131072, 196608, 262144]), rng.choice([262144, 262145, 196608]))]
+    out += [scale_many_load_batches(rng, [20000, 40000, 65536]) for _ in range(5)] + [scale_many_load_batches(rng, [100000])]
+    out += [scale_many_dump_batches(rng, [40000, 65536, 100000]) for _ in range(2)]
+    out += [scale_wide(rng, 300) for _ in range(10)]
     out += [scale_long_values(rng, 200) for _ in range(8)] + [scale_long_values(rng, 30, 'longstr-1m') for _ in range(3)]
     return out
 
